@@ -59,7 +59,12 @@ fn build(scenario: &str) -> Net<Packet> {
     for i in 0..n {
         let mut cfg = base_config(Mode::Router, Type::Tun, 0, &[0]);
         cfg.claims = vec![format!("10.0.{}.0/24", i)];
-        if scenario.ends_with("_plain") {
+        if scenario == "three_mixed_plain" {
+            // nodes 0 and 1 allow unencrypted operation (and a cipher), node 2 does not: 0-1 runs plain, 0-2 and 1-2 sealed
+            if i < 2 {
+                cfg.crypto.algorithms = vec!["plain".to_string(), "aes256".to_string()];
+            }
+        } else if scenario.ends_with("_plain") {
             cfg.crypto.algorithms = vec!["plain".to_string()];
         }
         net.add_node(&cfg, false);
@@ -376,7 +381,15 @@ pub fn run_case(c: &Case) -> CaseResult {
     let _ = before_frames;
     let cap_at_injection = net.capture.as_ref().unwrap().len();
     let r = util::catch(|| net.inject(to, from, data.clone()));
-    let tag = |f: Fail| f.with("datagram", kind.clone()).with("variant", c.variant.clone()).with("source", c.source.clone()).with("offset", c.offset).with("target", c.target.clone());
+    let tag = |f: Fail| {
+        let f = f.with("datagram", kind.clone()).with("variant", c.variant.clone()).with("source", c.source.clone()).with("offset", c.offset).with("target", c.target.clone());
+        // the mixed plain/encrypted mesh is told apart in the signature (open finding F17 lives there and nowhere else)
+        if c.scenario == "three_mixed_plain" {
+            f.with("scenario", c.scenario.clone()).with("second_injection", c.second.is_some())
+        } else {
+            f
+        }
+    };
     if let Err(p) = r {
         return Err(tag(Fail::from_panic(&p)));
     }
@@ -427,7 +440,9 @@ pub fn run_case(c: &Case) -> CaseResult {
         };
         if let Some(w2) = w2 {
             if let Some(to2) = net.node_index(&w2.to) {
-                let r = util::catch(|| net.inject(to2, w2.from, w2.data.clone()));
+                // a second injection under a CLAIMED source uses the same claimed source as the first
+                let from2 = if c.source == "original" { w2.from } else { from };
+                let r = util::catch(|| net.inject(to2, from2, w2.data.clone()));
                 if let Err(p) = r {
                     return Err(tag(Fail::from_panic(&p)).with("phase", "second_injection"));
                 }
@@ -469,9 +484,12 @@ pub fn run_case(c: &Case) -> CaseResult {
 
 pub fn cases(tier: Tier) -> Vec<Case> {
     let mut v = vec![];
-    let scenarios: &[&str] = tier.pick(&["two_single", "three", "three_rev", "two_single_plain"][..], &["two_single", "two_dual", "three", "three_rev", "two_single_plain"][..]);
+    let scenarios: &[&str] = tier.pick(&["two_single", "three", "three_rev", "two_single_plain", "three_mixed_plain"][..], &["two_single", "two_dual", "three", "three_rev", "two_single_plain", "three_mixed_plain"][..]);
     for sc in scenarios {
         let sel = select(sc);
+        if std::env::var("VERIF_TRACE_SELECT").is_ok() {
+            eprintln!("scenario {}: selected datagrams (index, kind, second) {:?}", sc, sel);
+        }
         for (k, kind, _rel) in sel {
             let sources: &[&str] = if sc.starts_with("three") { &["original", "other_peer", "unknown"] } else { &["original", "unknown"] };
             if sc.ends_with("_plain") && (kind == "sealed" || kind == "empty") {
@@ -527,7 +545,15 @@ pub fn cases(tier: Tier) -> Vec<Case> {
         }
         // ordered pairs of two verbatim handshake re-injections (state-changing replays chained)
         let hs: Vec<usize> = select(sc).into_iter().filter(|x| x.1 != "sealed" && x.1 != "empty").map(|x| x.0).collect();
-        let offs: &[i64] = if tier == Tier::Quick { &[61] } else { &[0, 5, 61, 121] };
+        let offs: &[i64] = if tier == Tier::Quick {
+            if *sc == "three_mixed_plain" {
+                &[61, 121]
+            } else {
+                &[61]
+            }
+        } else {
+            &[0, 5, 61, 121]
+        };
         let gaps: &[i64] = if tier == Tier::Quick { &[0, 61] } else { &[0, 1, 5, 61, 121] };
         for &k1 in &hs {
             for &offset in offs {
@@ -539,6 +565,11 @@ pub fn cases(tier: Tier) -> Vec<Case> {
                 for &offset in offs {
                     for &gap in gaps {
                         v.push(Case { scenario: sc.to_string(), k: k1, offset, source: "original".into(), variant: "verbatim".into(), target: "dest".into(), second: Some((k2, gap)) });
+                        if *sc == "three_mixed_plain" {
+                            // both datagrams under the address of ANOTHER peer (a handshake recorded on an unencrypted connection
+                            // carries nothing fresh from its responder)
+                            v.push(Case { scenario: sc.to_string(), k: k1, offset, source: "other_peer".into(), variant: "verbatim".into(), target: "dest".into(), second: Some((k2, gap)) });
+                        }
                     }
                 }
             }
